@@ -23,6 +23,9 @@ func runC07(c *Ctx) {
 	r07_5(c, "R07.5")
 	r04_5(c, "R07.6a")
 	r04_4recv(c, "R07.6b")
+	// the goroutine that forwards STATs to the writer must never wait on a
+	// context-free primitive (a limited writer group would stall the stream; shared with C04)
+	r04_11(c, "R07.7")
 }
 
 // recvLoop returns the receive-loop literal of receiver.run.
